@@ -187,11 +187,50 @@ pod_val!(P24, P24 { a: nd::u64(), b: nd::u64(), c: nd::u64() });
 pub struct Zst;
 pod_val!(Zst, Zst);
 
+/// zero-size but 8-aligned
+pub type ZstA8 = [u64; 0];
+impl Val for ZstA8 {
+    type Snap = ();
+    const DROPPABLE: bool = false;
+    fn sym() -> Self {
+        []
+    }
+    fn snap(&self) {}
+    fn same_value(_a: &(), _b: &()) -> bool {
+        true
+    }
+}
+pod_val!(Option<u32>, if nd::bool() { Some(nd::u32()) } else { None });
+
 /// over-aligned: 16 bytes, align 16
 #[repr(C, align(16))]
 #[derive(Clone, Copy, PartialEq, Eq, Debug, serde::Serialize, serde::Deserialize)]
 pub struct Over16(pub u64);
 pod_val!(Over16, Over16(nd::u64()));
+
+/// Not `Send` (and not `Sync`): holds a raw pointer. Used by the C14 obligations only.
+#[derive(Clone, Copy, Debug)]
+pub struct NotSend(pub *const u8);
+/// `Send` but not `Sync`.
+#[derive(Clone, Debug)]
+pub struct NotSync(pub std::cell::Cell<u8>);
+macro_rules! no_serde {
+    ($t:ty, $mk:expr) => {
+        impl serde::Serialize for $t {
+            fn serialize<S: serde::Serializer>(&self, s: S) -> Result<S::Ok, S::Error> {
+                s.serialize_unit()
+            }
+        }
+        impl<'de> serde::Deserialize<'de> for $t {
+            fn deserialize<D: serde::Deserializer<'de>>(d: D) -> Result<Self, D::Error> {
+                <()>::deserialize(d)?;
+                Ok($mk)
+            }
+        }
+    };
+}
+no_serde!(NotSend, NotSend(std::ptr::null()));
+no_serde!(NotSync, NotSync(std::cell::Cell::new(0)));
 
 /// Droppable value with a ledger identity; 8 bytes, align 4 (3 bytes of padding).
 #[repr(C)]
